@@ -31,14 +31,14 @@ import (
 // ---- C11: Subscriber delivers/relays a gossip message only if it decodes and verifies ----
 
 type c11Msg struct {
-	Payload string `json:"payload"` // valid | invalid-fields | wrong-chain | garbage | truncated | empty | decode-panic
-	Verdict string `json:"verdict"` // nil | soft | hard | wrapped-soft | wrapped-hard | plain | panic
+	Payload string `json:"payload"`       // valid | invalid-fields | wrong-chain | garbage | truncated | empty | decode-panic
+	Verdict string `json:"verdict"`       // nil | soft | hard | wrapped-soft | wrapped-hard | plain | panic
 	Via     string `json:"via,omitempty"` // "" = gossiped by the remote attacker | "local" = Subscriber.Broadcast on the node itself (header payloads only)
 }
 
 type c11P struct {
-	Msgs      []c11Msg `json:"msgs"`
-	Verifier  string   `json:"verifier"` // set | late (set after the first message is waiting) | never
+	Msgs     []c11Msg `json:"msgs"`
+	Verifier string   `json:"verifier"` // set | late (set after the first message is waiting) | never
 	// Restart: the Subscriber is stopped and started again (same object, verifier registered before) before any
 	// message is published; the registered verifier must keep deciding
 	Restart bool `json:"restart,omitempty"`
